@@ -35,6 +35,11 @@ def deep(depths):
     return out
 
 
+def endnest(d):
+    """environments nested inside the name group of a mismatched \\end (known finding C06-tolerant-end-nesting)"""
+    return '\\begin{a}\\end{' * d + 'x' + '}' * d
+
+
 def run(chk):
     quick = chk.tier == 'quick'
     rng = random.Random(chk.seed)
@@ -57,6 +62,7 @@ def run(chk):
     extra += S.mutations(rng, docs, 3 if quick else 40, S.SC + S.SC_EXTRA)
     extra += S.random_strings(rng, S.ST + S.SC_EXTRA, 300 if quick else 20000, 5, 30)
     extra += deep([12, 40])
+    extra += [endnest(6), endnest(10)]
     extra = list(dict.fromkeys(extra))
     exps = obs.experiments(extra)
     for e in exps:
@@ -67,12 +73,16 @@ def run(chk):
     # running the reference machine on them
     more = S.random_strings(rng, S.ST + S.SC_EXTRA + S.SC, 4000 if quick else 60000, 5, 40)
     more += S.mutations(rng, docs, 20 if quick else 200, S.SC + S.SC_EXTRA)
+    more += [endnest(12), endnest(40)]       # validated without running the reference machine (it is exponential on these too)
     more = list(dict.fromkeys(more))
     exps2 = obs.experiments(more)
     for e in exps2:
         chk.case(''.join(e['i']))
     S.judge(chk, S.validate(chk, exps2, timeout=3000, label='trace-light', light=True), CLAUSES,
             'parse outcome must be a tree or a diagnostic; no hang, no leak')
+    # the known finding at specification level: the reader machine itself exceeds the linear step bound on this family
+    ex = S.explore(chk, 'endnest-exhibit', [], invariants=['C06_StepBound'], sources=[endnest(9)], runs='B', timeout=600)
+    chk.notes['known_finding_exhibited_by_TLC'] = {'source': 'endnest(9)', 'invariant_violated_in_model': ex.violated}
     chk.exhaustive = False
     chk.assumptions += ['diagnostic set = {EOFError, TypeError, AssertionError}; which one is raised is not constrained',
                         'hang watchdog %.0fs per parse' % obs.HANG_S,
